@@ -38,6 +38,8 @@ type Program struct {
 	modChanged bool
 	usedIntrinsics map[string]bool
 	assumedInvs    map[string]bool
+	abstractDiv    bool // second attempt: over-approximate 64-bit division by symbolic divisors (only "unsat" answers are used)
+	sawSymbolicDiv bool
 	assumedCts     map[string]bool // contracts whose ensures were assumed at a call site (value: trusted)
 	missing []string
 	eventCache map[*ssa.Function]map[string]bool
